@@ -92,15 +92,24 @@ Qed.
 Lemma mark_removed_inb s i j : hl_inb (sget (mark_removed s i) j) = hl_inb (sget s j).
 Proof. unfold mark_removed, sget, sset; cbn. apply hget_hset_proj. reflexivity. Qed.
 
+Lemma mark_removed_tok_len s i j :
+  length (hl_tok (sget s j)) <> 1%nat -> length (hl_tok (sget (mark_removed s i) j)) <> 1%nat.
+Proof.
+  destruct (Nat.eq_dec i j) as [->|Hn].
+  - rewrite mark_removed_tok. cbn. lia.
+  - rewrite mark_removed_other by exact Hn. tauto.
+Qed.
+
 Lemma syntax_ok_mark_removed s i : SyntaxOk s -> SyntaxOk (mark_removed s i).
 Proof.
   intros [H1 H2 H3]. split.
   - exact H1.
   - change (tree_lines (mark_removed s i)) with (tree_lines s).
-    eapply Forall_impl; [|exact H2]. intros x [Hl Hb]. split.
+    eapply Forall_impl; [|exact H2]. intros x [Hl [Hb Ht]]. split; [|split].
     + change (length (heap (mark_removed s i))) with (heap_len (mark_removed s i)).
       rewrite mark_removed_len. exact Hl.
     + rewrite mark_removed_inb. exact Hb.
+    + destruct (snd x); [exact I | apply mark_removed_tok_len; exact Ht].
   - exact H3.
 Qed.
 
